@@ -3,7 +3,7 @@ import Mpd.Typed.Base
 /-!
 # Model of the caller side of `Client` and of a whole scheduled run
 
-Caller programs (`raw_command_list`, `album_art`, typed `command_list`) issue requests to the run
+Caller programs (`raw_command_list`, `raw_command`, `command`, `album_art`, typed `command_list`) issue requests to the run
 loop and turn replies into results; `run` executes a *schedule* (a list of actions) against the
 task model of `Mpd/Loop.lean` and produces, per action, what an outside observer sees.
 -/
@@ -23,6 +23,7 @@ inductive Final where
   | err (e : CmdErr)
   | art (r : Option (Bytes × Option Bytes))           -- album_art: Ok(None | Some(data, mime))
   | typed (items : List Bytes)                        -- command_list of echo commands: one string per command
+  | frame (f : AFrame)                                -- raw_command: Ok(the single frame)
 deriving Repr, DecidableEq
 
 /-- `raw_command_list`: all frames, or the error with the frames that preceded it -/
@@ -94,18 +95,24 @@ inductive Caller where
   | raw (rid : Nat)                                          -- waiting for the reply to request `rid`
   | art (rid : Nat) (uri : Bytes) (phase : ArtPhase)
   | typed (rid : Nat) (isVec : Bool) (names : List Bytes)
+  | single (rid : Nat)                                       -- `raw_command`: waiting for the reply to its one command
+  | typed1 (rid : Nat) (name : Bytes)                        -- `command(Echo(name))`
 deriving Repr, DecidableEq
 
 def Caller.rid : Caller → Nat
   | .raw r => r
   | .art r _ _ => r
   | .typed r _ _ => r
+  | .single r => r
+  | .typed1 r _ => r
 
 inductive Action where
   | deliver (b : Bytes)
   | enqueueRaw (rid : Nat) (bytes : Bytes)                   -- raw_command_list, already rendered
   | enqueueArt (rid : Nat) (uri : Bytes)
   | enqueueTyped (rid : Nat) (isVec : Bool) (names : List Bytes)
+  | enqueueSingle (rid : Nat) (bytes : Bytes)                -- raw_command, already rendered (one line)
+  | enqueueTyped1 (rid : Nat) (name : Bytes)                 -- command(Echo(name))
   | both (rid : Nat) (bytes : Bytes) (data : Bytes)          -- enqueue + deliver before the task runs
   | advance (ms : Nat)
   | cancel (rid : Nat)
@@ -269,6 +276,19 @@ def pollCallers (w : World) : World × Bool :=
               | none => Final.err .invalidTyped)
             | .error e => Final.err e
           go (finish w rid f) cs kept true
+        | .single rid =>
+          let f := match singleResult reply with
+            | .ok fr => Final.frame fr
+            | .error e => Final.err e
+          go (finish w rid f) cs kept true
+        | .typed1 rid name =>
+          -- `command`: `raw_command`, then the command's own `response(frame)`
+          let f := match singleResult reply with
+            | .ok fr => (match echoResponse name fr with
+              | .ok item => Final.typed [item]
+              | _ => Final.err .invalidTyped)
+            | .error e => Final.err e
+          go (finish w rid f) cs kept true
         | .art rid uri phase =>
           match artStep w rid uri phase k reply with
           | (w, some c') => go w cs (kept ++ [c']) true
@@ -309,6 +329,15 @@ def apply (w : World) : Action → World
         | .error _ => str "echo"
       submit { w with callers := w.callers ++ [.typed rid isVec names] } (subId rid 0)
         (Cmd.renderList (mk n) (ns.map mk))
+  | .enqueueSingle rid bytes =>
+    let w := { w with st := { w.st with senders := w.st.senders + 1 }, callers := w.callers ++ [.single rid] }
+    submit w (subId rid 0) bytes
+  | .enqueueTyped1 rid name =>
+    let w := { w with st := { w.st with senders := w.st.senders + 1 }, callers := w.callers ++ [.typed1 rid name] }
+    let line : Bytes := match Cmd.addArguments (str "echo") [name] with
+      | .ok c => c
+      | .error _ => str "echo"
+    submit w (subId rid 0) (Cmd.renderList line [])
   | .enqueueArt rid uri =>
     let w := { w with st := { w.st with senders := w.st.senders + 1 } }
     match artRequest true uri 0 with
